@@ -100,6 +100,10 @@ BENIGN = [
     ('b34-doc-says-never-panics', 'src/f64/dvec2.rs', '    #[inline]\n    #[must_use]\n    pub fn normalize_or_zero(self) -> Self {', '    ///\n    /// Unlike [`Self::normalize`], this function will never panic, even when `glam_assert` is enabled.\n    #[inline]\n    #[must_use]\n    pub fn normalize_or_zero(self) -> Self {', ['C20'], 'rustdoc sentence saying the function never panics'),
     ('b35-look-to-doc-rewrapped', 'src/f32/sse2/mat4.rs', '/// Will panic if `dir` or `up` are not normalized when `glam_assert` is enabled.\n    #[inline]\n    #[must_use]\n    pub fn look_to_rh(', '/// Will panic if `dir` or `up` are not\n    /// normalized when `glam_assert` is enabled.\n    #[inline]\n    #[must_use]\n    pub fn look_to_rh(', ['C20', 'C11'], 'panic sentence wrapped over two doc lines'),
     ('b36-serde-visitor-match', 'src/features/impl_serde.rs', 'let x = seq\n                            .next_element()?\n                            .ok_or_else(|| de::Error::invalid_length(0, &self))?;\n                        let y = seq\n                            .next_element()?\n                            .ok_or_else(|| de::Error::invalid_length(1, &self))?;\n                        Ok($vec2::new(x, y))', 'let x = match seq.next_element()? {\n                            Some(x) => x,\n                            None => return Err(de::Error::invalid_length(0, &self)),\n                        };\n                        let y = match seq.next_element()? {\n                            Some(y) => y,\n                            None => return Err(de::Error::invalid_length(1, &self)),\n                        };\n                        Ok($vec2::new(x, y))', ['C19'], 'serde visitor written with match'),
+    ('b37-vec3a-select-xor-blend', 'src/f32/sse2/vec3a.rs', '_mm_or_ps(\n                _mm_andnot_ps(mask.0, if_false.0),\n                _mm_and_ps(if_true.0, mask.0),\n            )', '_mm_xor_ps(if_false.0, _mm_and_ps(mask.0, _mm_xor_ps(if_true.0, if_false.0)))', ['C15', 'C01', 'C07'], 'select as the xor blend'),
+    ('b38-vec4-abs-by-shifts', 'src/f32/sse2/vec4.rs', 'Self(unsafe { crate::sse2::m128_abs(self.0) })', 'Self(unsafe { _mm_castsi128_ps(_mm_srli_epi32(_mm_slli_epi32(_mm_castps_si128(self.0), 1), 1)) })', ['C01', 'C07', 'C20'], 'abs by shifting the sign bit out'),
+    ('b39-vec3a-length-sqrt-ss', 'src/f32/sse2/vec3a.rs', '_mm_cvtss_f32(_mm_sqrt_ps(dot))', '_mm_cvtss_f32(_mm_sqrt_ss(dot))', ['C02', 'C07', 'C08', 'C12'], 'scalar square root instruction for a lane-0 result'),
+    ('b40-vec4-wzyx-pshufd', 'src/swizzles/sse2/vec4_impl.rs', 'fn wzyx(self) -> Vec4 {\n        Vec4(unsafe { _mm_shuffle_ps(self.0, self.0, 0b00_01_10_11) })', 'fn wzyx(self) -> Vec4 {\n        Vec4(unsafe { _mm_castsi128_ps(_mm_shuffle_epi32(_mm_castps_si128(self.0), 0b00_01_10_11)) })', ['C16', 'C07'], 'swizzle through the integer shuffle'),
     ('b09-cross-operand-order', 'src/f32/vec3.rs', 'x: self.y * rhs.z - rhs.y * self.z,', 'x: self.y * rhs.z - self.z * rhs.y,', ['C02', 'C03', 'C07', 'C11'], 'commuted product inside cross'),
 ]
 
